@@ -519,11 +519,33 @@ func (x *VC) immutableComp(key string) bool {
 	return x.eng.db.Immutable[key]
 }
 
+// ghostComp reports components that exist only in specifications (ghost globals, spawn and
+// channel-send counters, ghost fields): real code reached through `modifies *` cannot change them.
+func (x *VC) ghostKey(key string) bool {
+	if strings.HasPrefix(key, "G|spawned:") || key == "G|chan.sent" {
+		return true
+	}
+	if strings.HasPrefix(key, "G|") {
+		for _, g := range x.eng.db.Ghosts {
+			if g.Type == "G" && "G|"+g.Field == key {
+				return true
+			}
+		}
+		return false
+	}
+	if strings.HasPrefix(key, "F|") {
+		if i := strings.LastIndex(key, "|"); i >= 0 && strings.HasPrefix(key[i+1:], "$") {
+			return true
+		}
+	}
+	return false
+}
+
 func (x *VC) epochName(c *Comp, ep *Epoch) string {
 	if n, ok := c.byEp[ep.id]; ok {
 		return n
 	}
-	if x.immutableComp(c.Key) && ep.id != 0 {
+	if (x.immutableComp(c.Key) || x.ghostKey(c.Key)) && ep.id != 0 {
 		// immutable fields look the same in every epoch (stores into fresh objects are explicit versions)
 		n := x.epochName(c, &Epoch{id: 0, kind: "base"})
 		c.byEp[ep.id] = n
